@@ -79,6 +79,8 @@ def arg_for12(fname, i, pn, pt, writer):
     if (fname, pn) in IGNORED_PARAMS:
         return v, kind, []
     t = pt.replace("const ", "").strip()
+    if fname == "cg_conn_write" and pn == "donor_ptset_type":
+        v = "CGNS_ENUMV(PointListDonor)"      # the only kinds a donor list may have: PointListDonor / CellListDonor
     if fname == "cg_boco_normal_write" and pn == "NormalListFlag":
         v = "1"           # with the flag 0 the list and its NormalDataType are (legitimately) ignored
     if t == "int" and pn in INDEX and kind != "index" and kind not in ("handle", "special"):
@@ -752,6 +754,7 @@ def run(ck):
                 ("adf", "unstr", "read", 0.2, False, False), ("adf", "bare12", "write", 0.3, False, False)]
     findings, observations, dyn = {}, {}, {"passes": [], "cases": 0, "sanitizer_reports": 0}
     valid_ok, rejected, raw = {}, {}, []
+    bound_ok, bound_seen = set(), set()
     for (b, st, mode, frac, allc, onlyv) in plan:
         t0 = time.time()
         cases = select_cases(entries, rng, ck.tier, 1.0 if frac == BO else frac, allc, onlyv, probes=big and st == "rich12" and b == "adf", bounds_only=frac == BO)
@@ -784,6 +787,10 @@ def run(ck):
                             "tree": c.get("tree"), "outcome": c.get("out")} if nontrivial and len(ck.cov["samples"]) < 4 else None)
             if c.get("st") not in (None, "0"):
                 rejected.setdefault((fn, var["pos"] + 1), set()).add(family(var["cls"]))
+            if var["cls"].startswith("bound") and var["must"] == 0:
+                bound_seen.add("%s %s" % (fn, var["desc"]))
+                if c.get("st") == "0":
+                    bound_ok.add("%s %s" % (fn, var["desc"]))
             w = judge(c, e, MODES[mode], var["must"])
             if var["must"] == 0:
                 # a probe: it may be a valid index.  Only a sanitizer report counts, or a change although the call was refused
@@ -909,6 +916,10 @@ def run(ck):
     dyn["entry_points_called"] = len(entries)
     dyn["static_only"] = sorted(static_only)
     dyn["entry_points_whose_valid_variant_is_accepted_somewhere"] = len(valid_ok)
+    dyn["valid_variant_never_accepted"] = sorted({e["fn"] for e in entries} - set(valid_ok))
+    dyn["bounds"] = {"variants": sum(1 for e in entries if "@" not in e["name"] for v in e["variants"] if v["cls"].startswith("bound")),
+                     "must_fail": sum(1 for e in entries if "@" not in e["name"] for v in e["variants"] if v["cls"].startswith("bound") and v["must"] == 1),
+                     "inside_values_accepted_somewhere": sorted(bound_ok), "never_accepted_may_variants": sorted(bound_seen - bound_ok)}
     ck.extra["dynamic"] = dyn
     ck.extra["proved_vs_tested"] = {
         "proved": "C12_getter_bounds / _complete / _rejects (any count, any array), C12_invalid_no_change (RINV => unchanged, any table passing van_ok), "
